@@ -85,10 +85,21 @@ func (w *inWatch) drain() (evs []inEvent, overflow bool) {
 func c04BuildInotify(tier string) core.Source {
 	drive.Quiet()
 	arrs := drive.Arrangements
-	return core.FuncSource{N: len(arrs), F: func(i int) core.Result {
-		arr := arrs[i]
+	return core.FuncSource{N: 2 * len(arrs), F: func(i int) core.Result {
+		arr := arrs[i%len(arrs)]
+		del := i >= len(arrs)
+		args := []string{"-rlt"}
 		res := core.Result{Case: "inotify trace of the destination directories during a free-running session, arr=" + arr}
 		src, dst := c04Trees()
+		if del {
+			// a deleting run: listed entries whose names sort between a non-empty directory and its contents
+			// (one up to date, one stale) and an extraneous entry that gives the deletion pass something to do
+			args = append(args, "--delete")
+			res.Case += " with --delete"
+			same := tm.File("sub.txt", genData(famText, 70, 61), 0o644, tm.Past)
+			src = append(src, same, tm.File("sub-v1", genData(famText, 80, 62), 0o644, tm.Past))
+			dst = append(dst, same, tm.File("sub-v1", genData(famText, 81, 63), 0o644, tm.Past-9), tm.File("extraneous", []byte("x"), 0o644, tm.Past), tm.File("sub/extraneous", []byte("y"), 0o644, tm.Past))
+		}
 		dir := workDir()
 		defer cleanup(dir)
 		src.Materialise(filepath.Join(dir, "src"))
@@ -99,7 +110,7 @@ func c04BuildInotify(tier string) core.Source {
 			res.Inconcl = "inotify unavailable: " + err.Error()
 			return res
 		}
-		out := drive.Run(drive.Job{Arr: arr, Args: []string{"-rlt"}, Base: dir, Sources: []string{"src/"}, Dest: d})
+		out := drive.Run(drive.Job{Arr: arr, Args: args, Base: dir, Sources: []string{"src/"}, Dest: d})
 		evs, overflow := w.drain()
 		cnt(&res, "transitions", int64(len(evs)))
 		cnt(&res, "states", int64(len(evs))+1)
